@@ -94,6 +94,8 @@ def topologies(tier):
         "2vms-3nics/28+/20": ({"vm1": {"b1": ("10.9.8.1", m28), "b2": ("172.16.32.1", m20), "b3": ("192.168.1.1", m24)},
                                 "vm2": {"b1": ("10.9.8.2", m28), "b2": ("172.16.48.1", m20)}}, "5-7"),
         "1vm": ({"vm1": {"b1": ("10.1.0.1", m16), "b2": ("172.17.0.1", m24)}}, "100-101"),
+        # several nics of one vm in one subnet that no earlier vm introduced
+        "2vms-same-subnet-nics": ({"vm1": {"b1": ("10.1.0.1", m16), "b2": ("10.1.0.2", m16)}, "vm2": {"b1": ("10.1.0.3", m16), "b2": ("172.18.0.1", m24), "b3": ("172.18.0.2", m24)}}, "100-103"),
     }
     if tier == "thorough":
         T["4vms-chain"] = ({"vm1": {"b1": ("10.1.0.1", m16), "b2": ("172.17.0.1", m24)}, "vm2": {"b1": ("10.1.0.2", m16), "b2": ("172.18.0.1", m24)},
